@@ -1409,12 +1409,12 @@ Proof.
   set (f' := {| f_isfile := f_isfile f; f_int := f_int f; f_loc := f_loc f; f_xall := true |}).
   assert (S1 : step s EExternAll = with_stack s1 (f' :: r)).
   { unfold step. rewrite T1. fold mine. fold s1. unfold set_xall. rewrite ST, E1. reflexivity. }
-  rewrite S1. simpl step_ann.
-  assert (XAe : forall j, XA (A ++ [(P, EExternAll, top stk)]) j = XA A j || (Nat.eqb (a_inst a) j && a_infile a)).
-  { intros j. unfold XA. rewrite existsb_app. simpl. rewrite T2, orb_false_r. reflexivity. }
-  assert (ACTe : acts_at (A ++ [(P, EExternAll, top stk)]) (ACC A) (P, EExternAll, top stk) =
+  rewrite S1. simpl step_ann. rewrite T2 in *.
+  assert (XAe : forall j, XA (A ++ [(P, EExternAll, a)]) j = XA A j || (Nat.eqb (a_inst a) j && a_infile a)).
+  { intros j. unfold XA. rewrite existsb_app. simpl. rewrite orb_false_r. reflexivity. }
+  assert (ACTe : acts_at (A ++ [(P, EExternAll, a)]) (ACC A) (P, EExternAll, a) =
                  map (fun n => (lower n, fi (f_int f))) mine).
-  { simpl acts_at. rewrite (filter_pos_lt A P _ HP). rewrite T2, <- F2.
+  { simpl acts_at. rewrite (filter_pos_lt A P _ HP). rewrite <- F2.
     pose proof (I0 _ RIf) as Q. unfold mine.
     rewrite map_map.
     assert (G : forall (l : list odef), (forall d, In d l -> o_inst d = fi (f_int f)) ->
@@ -1425,9 +1425,13 @@ Proof.
     - rewrite <- Q, map_map. reflexivity.
     - intros d Id. apply filter_In in Id. destruct Id as [_ Id]. apply Nat.eqb_eq in Id. exact Id. }
   refine (conj _ (conj _ (conj _ _))).
-  - unfold G1. simpl stack. simpl next_int. simpl next_loc. rewrite NI, NL.
-    refine (conj _ (conj _ (conj _ (conj H4 (conj H5 (conj _ (conj _ (conj H8 (conj _ H10))))))))).
-    + apply G1_pos_snoc; auto.
+  - assert (RIe : forall k, rI (with_stack s1 (f' :: r)) k <-> rI s k) by (intros k; unfold rI; simpl; rewrite NI; tauto).
+    assert (RLe : forall k, rL (with_stack s1 (f' :: r)) k <-> rL s k) by (intros k; unfold rL; simpl; rewrite NL; tauto).
+    unfold G1. simpl stack. simpl next_int. simpl next_loc. rewrite NI, NL.
+    refine (conj _ (conj _ (conj _ (conj H4 (conj H5 (conj _ (conj _ (conj _ (conj _ _))))))))).
+    6:{ intros k k' R R'. apply RIe in R. apply RIe in R'. auto. }
+    7:{ intros k k' R R'. apply RLe in R. apply RLe in R'. auto. }
+    + intros p e0 a0 Hin. apply (G1_pos_snoc A stk P EExternAll H1 H3 p e0 a0). rewrite T2. exact Hin.
     + rewrite E2. constructor.
       * unfold frel, f'. simpl. refine (conj F1 (conj F2 (conj F3 _))). intros Fa.
         rewrite XAe, Nat.eqb_refl, Fa. simpl. rewrite orb_true_r. reflexivity.
@@ -1444,10 +1448,11 @@ Proof.
         -- apply IHFRr. intros a0 Ia0. apply ND. right. exact Ia0.
     + intros a0 Ia. destruct (H3 _ Ia). lia.
     + intros f0 [<-|If]; simpl.
-      * split; assumption.
-      * apply H6. rewrite E1. right. exact If.
-    + intros k R. specialize (H7 _ R). lia.
-    + intros k R. specialize (H9 _ R). lia.
+      * split; [apply RIe|apply RLe]; assumption.
+      * assert (If' : In f0 (stack s)) by (rewrite E1; right; exact If). destruct (H6 _ If').
+        split; [apply RIe|apply RLe]; assumption.
+    + intros k R. apply RIe in R. specialize (H7 _ R). lia.
+    + intros k R. apply RLe in R. specialize (H9 _ R). lia.
   - apply (G2_mono s _ A _ fi fl fi fl g2); auto.
     + intros k R. unfold rI in *. simpl. rewrite NI. exact R.
     + intros k R. unfold rL in *. simpl. rewrite NL. exact R.
@@ -1464,4 +1469,526 @@ Proof.
     + simpl. rewrite SY1. auto.
     + intros k R. unfold rI in *. simpl. rewrite NI. exact R.
     + intros k R. unfold rL in *. simpl. rewrite NL. exact R.
+Qed.
+
+(* ================================================================== Part 3: the whole trace *)
+Lemma inv_step s A stk P fi fl e :
+  Inv s A stk P fi fl -> (e = EFile \/ stk <> []) ->
+  exists fi' fl', Inv (step s e) (A ++ [(P, e, top stk)]) (step_ann e P stk) (S P) fi' fl'.
+Proof.
+  intros H N.
+  assert (NE : e = EFile \/ stack s <> []).
+  { destruct N as [N|N]; auto. right. destruct H as ((_ & H2 & _) & _). intros Q. rewrite Q in H2. inversion H2. congruence. }
+  destruct e.
+  - exists (upd fi (next_int s) P), (upd fl (next_loc s) (P, P)). apply step_file. exact H.
+  - exists fi, fl. apply step_end; auto.
+  - destruct NE as [NE|NE]; [discriminate|]. exists fi, (upd fl (next_loc s) (P, P)). apply step_block; auto.
+  - exists fi, fl. apply step_end; auto.
+  - destruct NE as [NE|NE]; [discriminate|]. destruct (f_isfile (topf s)) eqn:F.
+    + destruct (step_label_file s A stk P fi fl name ext addr H NE F) as [fl' Q]. exists fi, fl'. exact Q.
+    + exists fi, fl. apply step_unexp; auto. exact I.
+  - destruct NE as [NE|NE]; [discriminate|]. exists fi, fl. destruct (f_isfile (topf s)) eqn:F.
+    + apply step_local_file; auto.
+    + apply step_unexp; auto. exact I.
+  - destruct NE as [NE|NE]; [discriminate|]. exists fi, fl. destruct (f_isfile (topf s)) eqn:F.
+    + apply step_assign_file; auto.
+    + apply step_unexp; auto. exact I.
+  - destruct NE as [NE|NE]; [discriminate|]. exists fi, fl. apply step_ref; auto.
+  - destruct NE as [NE|NE]; [discriminate|]. exists fi, fl. apply step_extern; auto.
+  - destruct NE as [NE|NE]; [discriminate|]. exists fi, fl. apply step_externall; auto.
+Qed.
+
+(* every event other than the start of a file instance lies inside a file instance *)
+Fixpoint nested_from (d : nat) (tr : list ev) : bool :=
+  match tr with
+  | [] => true
+  | e :: r =>
+      match e with
+      | EFile => nested_from (S d) r
+      | EBlock => Nat.ltb 0 d && nested_from (S d) r
+      | EEndFile | EEndBlock => Nat.ltb 0 d && nested_from (Nat.pred d) r
+      | _ => Nat.ltb 0 d && nested_from d r
+      end
+  end.
+
+Definition nested (tr : list ev) : bool := nested_from 0 tr.
+
+Lemma step_ann_length e P stk : (e = EFile \/ stk <> []) ->
+  length (step_ann e P stk) =
+  match e with EFile | EBlock => S (length stk) | EEndFile | EEndBlock => Nat.pred (length stk) | _ => length stk end.
+Proof.
+  intros N. destruct e; simpl; auto; try (destruct stk; reflexivity).
+  destruct N as [N|N]; [discriminate|]. destruct stk as [|a q]; [congruence|]. simpl.
+  destruct (a_infile a); reflexivity.
+Qed.
+
+Lemma inv_run tr : forall s A stk P fi fl,
+  Inv s A stk P fi fl -> nested_from (length stk) tr = true ->
+  exists fi' fl', Inv (fold_left step tr s) (A ++ annot tr P stk) (sstack tr P stk) (P + length tr)%nat fi' fl'.
+Proof.
+  induction tr as [|e r IH]; intros s A stk P fi fl H N.
+  - simpl. rewrite app_nil_r, Nat.add_0_r. eauto.
+  - assert (NE : e = EFile \/ stk <> []).
+    { destruct e; auto; right; simpl in N; apply andb_true_iff in N; destruct N as [N _];
+        apply Nat.ltb_lt in N; intros Q; rewrite Q in N; simpl in N; lia. }
+    destruct (inv_step s A stk P fi fl e H NE) as (fi1 & fl1 & H1).
+    assert (N' : nested_from (length (step_ann e P stk)) r = true).
+    { rewrite (step_ann_length e P stk NE). destruct e; simpl in N; try exact N;
+        apply andb_true_iff in N; destruct N as [_ N]; exact N. }
+    destruct (IH _ _ _ _ _ _ H1 N') as (fi2 & fl2 & H2).
+    exists fi2, fl2. simpl fold_left. rewrite annot_cons. simpl sstack.
+    replace (A ++ (P, e, top stk) :: annot r (S P) (step_ann e P stk))
+      with ((A ++ [(P, e, top stk)]) ++ annot r (S P) (step_ann e P stk)) by (rewrite <- app_assoc; reflexivity).
+    replace (P + length (e :: r))%nat with (S P + length r)%nat by (simpl; lia). exact H2.
+Qed.
+
+Lemma inv_init : Inv init [] [] 0 (fun _ => 0%nat) (fun _ => (0%nat, 0%nat)).
+Proof.
+  refine (conj _ (conj _ (conj _ _))).
+  - unfold G1. simpl.
+    refine (conj _ (conj _ (conj _ (conj _ (conj _ (conj _ (conj _ (conj _ (conj _ _))))))))); try (intros; contradiction); try constructor; try lia.
+    all: try (intros k R; unfold rI, rL in R; simpl in R; lia); try (intros k k' R; unfold rI, rL in R; simpl in R; lia).
+  - unfold G2. simpl. repeat split; intros; try discriminate; try contradiction.
+  - unfold G3, XR. simpl. repeat split; intros; try discriminate; try contradiction;
+      try (destruct H as [H|H]; discriminate); try (unfold rI in H; simpl in H; lia).
+  - constructor.
+Qed.
+
+(* ------------------------------------------------------------------ the walk itself never reports 'undefined' *)
+Lemma errs_bump s : errs (bump_local s) = errs s.
+Proof. unfold bump_local. destruct (stack s); reflexivity. Qed.
+Lemma errs_set_xall s : errs (set_xall s) = errs s.
+Proof. unfold set_xall. destruct (stack s); reflexivity. Qed.
+
+Lemma undef_ne_dup : E_UNDEFINED <> E_DUP. Proof. discriminate. Qed.
+
+Lemma in_add_err_undef s y : y <> E_UNDEFINED -> In E_UNDEFINED (errs (add_err s y)) -> In E_UNDEFINED (errs s).
+Proof. intros N H. simpl in H. apply in_app_or in H. destruct H as [H|[H|[]]]; auto. congruence. Qed.
+
+Lemma step_no_undef s e : In E_UNDEFINED (errs (step s e)) -> In E_UNDEFINED (errs s).
+Proof.
+  unfold step. destruct e; break_if;
+    rewrite ?errs_bump, ?errs_set_xall;
+    repeat (rewrite ?(errs_declare_other _ _ _ _ undef_ne_dup), ?(errs_fold_declare_other _ _ _ undef_ne_dup); simpl errs);
+    auto; try (apply in_add_err_undef; discriminate).
+Qed.
+
+Lemma walk_no_undef tr : forall s, In E_UNDEFINED (errs (fold_left step tr s)) -> In E_UNDEFINED (errs s).
+Proof. induction tr as [|e r IH]; simpl; intros s H; auto. apply (step_no_undef s e). apply IH. exact H. Qed.
+
+(* ------------------------------------------------------------------ bindings *)
+Definition bindf (acc : list odef) (lacc : list ldef) (acts : list (string * nat)) (na : string * ann) : option Z :=
+  if is_local (fst na) then bind_loc lacc (lower (fst na)) (a_blk (snd na)) (a_seg (snd na))
+  else bind_ord acc acts (lower (fst na)) (a_inst (snd na)).
+
+Lemma bindings_refs A acc lacc acts : bindings A acc lacc acts = map (bindf acc lacc acts) (refs_of A).
+Proof.
+  unfold bindings, refs_of. induction A as [|[[p e] a] r IH]; simpl; auto.
+  destruct e; simpl; auto. rewrite IH. reflexivity.
+Qed.
+
+Lemma find_ord_some A ln i v :
+  find_ord (ACC A) ln i = Some v <-> exists d, In d (ACC A) /\ o_name d = ln /\ o_inst d = i /\ o_val d = v.
+Proof.
+  unfold find_ord. split.
+  - destruct (find (fun d => String.eqb (o_name d) ln && Nat.eqb (o_inst d) i) (ACC A)) eqn:E; [|discriminate].
+    intros H. inversion H; subst. apply find_some in E. destruct E as [I Q].
+    apply andb_true_iff in Q. destruct Q as [Q1 Q2]. apply String.eqb_eq in Q1. apply Nat.eqb_eq in Q2. eauto.
+  - intros (d & I & N & In_ & V).
+    destruct (find (fun d => String.eqb (o_name d) ln && Nat.eqb (o_inst d) i) (ACC A)) eqn:E.
+    + apply find_some in E. destruct E as [I' Q]. apply andb_true_iff in Q. destruct Q as [Q1 Q2].
+      apply String.eqb_eq in Q1. apply Nat.eqb_eq in Q2.
+      assert (o = d). { unfold ACC in *. eapply (accepted_func same_ord same_ord_sym); eauto. apply same_ord_iff. split; congruence. }
+      subst. reflexivity.
+    + exfalso. apply (find_none _ _ E) in I. rewrite N, In_, String.eqb_refl, Nat.eqb_refl in I. discriminate.
+Qed.
+
+Lemma bind_loc_some A ln b g v :
+  bind_loc (LACC A) ln b g = Some v <-> exists d, In d (LACC A) /\ l_name d = ln /\ l_blk d = b /\ l_seg d = g /\ l_val d = v.
+Proof.
+  unfold bind_loc. split.
+  - destruct (find (fun d => String.eqb (l_name d) ln && Nat.eqb (l_blk d) b && Nat.eqb (l_seg d) g) (LACC A)) eqn:E; [|discriminate].
+    intros H. inversion H; subst. apply find_some in E. destruct E as [I Q].
+    apply andb_true_iff in Q. destruct Q as [Q Q3]. apply andb_true_iff in Q. destruct Q as [Q1 Q2].
+    apply String.eqb_eq in Q1. apply Nat.eqb_eq in Q2. apply Nat.eqb_eq in Q3. exists l. auto.
+  - intros (d & I & N & B & G & V).
+    destruct (find (fun d => String.eqb (l_name d) ln && Nat.eqb (l_blk d) b && Nat.eqb (l_seg d) g) (LACC A)) eqn:E.
+    + apply find_some in E. destruct E as [I' Q].
+      apply andb_true_iff in Q. destruct Q as [Q Q3]. apply andb_true_iff in Q. destruct Q as [Q1 Q2].
+      apply String.eqb_eq in Q1. apply Nat.eqb_eq in Q2. apply Nat.eqb_eq in Q3.
+      assert (l = d). { unfold LACC in *. eapply (accepted_func same_loc same_loc_sym); eauto. apply same_loc_iff. repeat split; congruence. }
+      subst. reflexivity.
+    + exfalso. apply (find_none _ _ E) in I. rewrite N, B, G, String.eqb_refl, !Nat.eqb_refl in I. discriminate.
+Qed.
+
+(* the table lookups are the Spec's finds *)
+Lemma lookup_int_find s A fi fl k ln :
+  G1 s A (@nil ann) 0 fi fl \/ True -> G2 s A fi fl -> rI s k ->
+  (forall k k', rI s k -> rI s k' -> fi k = fi k' -> k = k') ->
+  lookup_key (KInternal, k, ln) (syms s) = find_ord (ACC A) ln (fi k).
+Proof.
+  intros _ (G21 & G22 & _) R INJ.
+  destruct (lookup_key (KInternal, k, ln) (syms s)) eqn:L.
+  - symmetry. apply find_ord_some. destruct (G21 _ _ _ L) as (_ & d & I & N & F & V). eauto.
+  - destruct (find_ord (ACC A) ln (fi k)) eqn:F; auto.
+    apply find_ord_some in F. destruct F as (d & I & N & F & V).
+    destruct (G22 _ I) as (k' & R' & F' & L'). assert (k' = k) by (apply INJ; auto; congruence). subst.
+    try rewrite N in L'; congruence.
+Qed.
+
+Lemma lookup_loc_find s A fi fl k ln :
+  G2 s A fi fl -> rL s k ->
+  (forall k k', rL s k -> rL s k' -> fl k = fl k' -> k = k') ->
+  lookup_key (KLocal, k, ln) (syms s) = bind_loc (LACC A) ln (fst (fl k)) (snd (fl k)).
+Proof.
+  intros (_ & _ & G23 & G24) R INJ.
+  destruct (lookup_key (KLocal, k, ln) (syms s)) eqn:L.
+  - symmetry. apply bind_loc_some. destruct (G23 _ _ _ L) as (_ & d & I & N & F & V). exists d. rewrite F. simpl. auto.
+  - destruct (bind_loc (LACC A) ln (fst (fl k)) (snd (fl k))) eqn:F; auto.
+    apply bind_loc_some in F. destruct F as (d & I & N & B & G & V).
+    destruct (G24 _ I) as (k' & R' & F' & L'). assert (k' = k).
+    { apply INJ; auto. rewrite F'. rewrite B, G. destruct (fl k); reflexivity. }
+    subst. try rewrite N in L'; congruence.
+Qed.
+
+Lemma kinded_local T k ln v : kinded T -> lookup_key (KLocal, k, ln) T = Some v -> is_local ln = true.
+Proof.
+  intros K H. apply lookup_key_in in H. destruct H as (en & I & E & _). pose proof (K _ I) as Q. rewrite E in Q. exact Q.
+Qed.
+Lemma kinded_internal T k ln v : kinded T -> lookup_key (KInternal, k, ln) T = Some v -> is_local ln = false.
+Proof.
+  intros K H. apply lookup_key_in in H. destruct H as (en & I & E & _). pose proof (K _ I) as Q. rewrite E in Q. exact Q.
+Qed.
+
+Lemma force_bind s A stk P fi fl o na :
+  Inv s A stk P fi fl -> kinded (syms s) -> orel s fi fl o na ->
+  force s o = bindf (ACC A) (LACC A) (ACTS A) na.
+Proof.
+  intros (g1 & g2 & g3 & g5) K (loc & int & RL & RI & Fi & Fl & H).
+  pose proof g1 as (H1 & H2 & H3 & H4 & H5 & H6 & H7 & H8 & H9 & H10).
+  destruct g3 as ((X1 & X2 & X3) & _).
+  destruct na as [n a]. simpl fst in *. simpl snd in *.
+  assert (LL : lookup_key (KLocal, loc, lower n) (syms s) = bind_loc (LACC A) (lower n) (a_blk a) (a_seg a)).
+  { rewrite (lookup_loc_find s A fi fl loc (lower n) g2 RL H10), Fl. reflexivity. }
+  assert (II : forall k, rI s k -> lookup_key (KInternal, k, lower n) (syms s) = find_ord (ACC A) (lower n) (fi k)).
+  { intros k R. apply (lookup_int_find s A fi fl k (lower n) (or_intror I) g2 R H8). }
+  unfold bindf. simpl fst. simpl snd. rewrite <- (is_local_lower n).
+  destruct H as [->|(v & -> & [H|H])].
+  - simpl force. unfold resolve_final. rewrite <- LL.
+    destruct (lookup_key (KLocal, loc, lower n) (syms s)) as [v|] eqn:L.
+    + rewrite (kinded_local _ _ _ _ K L). reflexivity.
+    + destruct (is_local (lower n)) eqn:LOC.
+      * destruct (lookup_key (KInternal, int, lower n) (syms s)) eqn:Q.
+        { pose proof (kinded_internal _ _ _ _ K Q). congruence. }
+        destruct (lookup_ext (lower n) (exts s)) as [key|] eqn:E; auto.
+        destruct (X1 _ _ E) as (k & -> & Rk & _).
+        destruct (lookup_key (KInternal, k, lower n) (syms s)) eqn:Q2; auto.
+        pose proof (kinded_internal _ _ _ _ K Q2). congruence.
+      * unfold bind_ord. rewrite <- Fi, <- (II int RI).
+        destruct (lookup_key (KInternal, int, lower n) (syms s)); auto.
+        destruct (first_act (lower n) (ACTS A)) as [i|] eqn:FA.
+        -- destruct (X2 _ _ FA) as (k & Rk & Fk & Lk). rewrite Lk, <- Fk. apply II. exact Rk.
+        -- destruct (lookup_ext (lower n) (exts s)) as [key|] eqn:E; auto.
+           destruct (X1 _ _ E) as (k & _ & _ & Q). congruence.
+  - simpl force. rewrite (kinded_local _ _ _ _ K H), <- LL, H. reflexivity.
+  - simpl force. rewrite (kinded_internal _ _ _ _ K H). unfold bind_ord. rewrite <- Fi, <- (II int RI), H. reflexivity.
+Qed.
+
+Lemma has_iff e l (b : bool) : (In e l <-> b = true) -> has e l = b.
+Proof.
+  intros H. unfold has. destruct b.
+  - apply existsb_exists. exists e. split; [apply H; reflexivity|apply String.eqb_refl].
+  - destruct (existsb (String.eqb e) l) eqn:Q; auto. apply existsb_exists in Q. destruct Q as (x & I & Q).
+    apply String.eqb_eq in Q. subst. apply H in I. discriminate.
+Qed.
+
+Lemma has_app e l1 l2 : has e (l1 ++ l2) = has e l1 || has e l2.
+Proof. unfold has. apply existsb_app. Qed.
+
+(* ------------------------------------------------------------------ scope_refines *)
+Lemma scope_refines_lemma tr :
+  Forall wf_ev tr -> nested tr = true -> fst (model_trace tr) = spec_trace tr.
+Proof.
+  intros W N.
+  destruct (inv_run tr init [] [] 0%nat _ _ inv_init N) as (fi & fl & HI).
+  simpl app in HI. simpl plus in HI. fold (walk tr) in HI.
+  set (s := walk tr) in *. set (A := annot tr 0 []) in *.
+  assert (K : kinded (syms s)) by (apply kinded_walk; auto; intros en []).
+  pose proof HI as (g1 & g2 & g3 & g5).
+  destruct g3 as ((X1 & X2 & X3) & _ & U & _).
+  assert (VALS : map (force s) (outs s) = bindings A (ACC A) (LACC A) (ACTS A)).
+  { rewrite bindings_refs. unfold G5 in g5. clear -g5 HI K.
+    induction g5; simpl; auto. f_equal; auto. eapply force_bind; eauto. }
+  unfold model_trace, spec_trace. fold s. fold A. simpl fst.
+  fold (ACC A). fold (LACC A). fold (ACTS A). rewrite VALS.
+  set (bs := bindings A (ACC A) (LACC A) (ACTS A)).
+  set (un := existsb (fun v : option Z => match v with None => true | Some _ => false end) bs).
+  assert (NU : has E_UNDEFINED (errs s) = false).
+  { unfold has. destruct (existsb (String.eqb E_UNDEFINED) (errs s)) eqn:Q; auto.
+    apply existsb_exists in Q. destruct Q as (x & I0 & Q). apply String.eqb_eq in Q. subst x.
+    apply (walk_no_undef tr init) in I0. destruct I0. }
+  assert (E1 : has E_UNEXPECTED (errs s ++ (if un then [E_UNDEFINED] else [])) = has_unexpected A).
+  { rewrite has_app, (has_iff _ _ _ U). destruct un; simpl; rewrite orb_false_r; reflexivity. }
+  assert (E2 : has E_DUP (errs s ++ (if un then [E_UNDEFINED] else [])) =
+               negb (Nat.eqb (length (ACC A)) (length (ord_defs A))) || negb (Nat.eqb (length (LACC A)) (length (loc_defs A))) || has_dup_name [] (ACTS A)).
+  { rewrite has_app. fold (dupdefs A).
+    assert (Q : has E_DUP (errs s) = dupdefs A || has_dup_name [] (ACTS A)).
+    { apply has_iff. rewrite X3, orb_true_iff. tauto. }
+    rewrite Q. destruct un; simpl; rewrite orb_false_r; reflexivity. }
+  assert (E3 : has E_UNDEFINED (errs s ++ (if un then [E_UNDEFINED] else [])) = un).
+  { rewrite has_app, NU. destruct un; reflexivity. }
+  rewrite E1, E2, E3. reflexivity.
+Qed.
+
+(* ================================================================== Part 4: traces of abstract programs *)
+Definition bal (t : list ev) : Prop :=
+  forall d rest, (1 <= d)%nat -> nested_from d (t ++ rest) = nested_from d rest.
+
+Lemma bal_nil : bal []. Proof. intros d rest L. reflexivity. Qed.
+
+Lemma bal_app t1 t2 : bal t1 -> bal t2 -> bal (t1 ++ t2).
+Proof. intros B1 B2 d rest L. rewrite <- app_assoc, B1, B2; auto. Qed.
+
+Lemma bal_single e : (match e with EFile | EEndFile | EBlock | EEndBlock => False | _ => True end) -> bal [e].
+Proof.
+  intros H d rest L. simpl. assert (Q : Nat.ltb 0 d = true) by (apply Nat.ltb_lt; lia).
+  destruct e; try contradiction; rewrite Q; reflexivity.
+Qed.
+
+Lemma bal_wrap_block t : bal t -> bal (EBlock :: t ++ [EEndBlock]).
+Proof.
+  intros B d rest L. simpl. assert (Q : Nat.ltb 0 d = true) by (apply Nat.ltb_lt; lia). rewrite Q. simpl.
+  rewrite <- app_assoc, B by lia. simpl. reflexivity.
+Qed.
+
+Lemma bal_wrap_file t : bal t -> bal (EFile :: t ++ [EEndFile]).
+Proof.
+  intros B d rest L. simpl. rewrite <- app_assoc, B by lia. simpl. reflexivity.
+Qed.
+
+Lemma iter_block_bal g k : (forall cnt t c, g cnt = Ok (t, c) -> bal t) ->
+  forall cnt t c, iter_block g k cnt = Ok (t, c) -> bal t.
+Proof.
+  intros G. induction k as [|k IH]; intros cnt t c H; simpl in H.
+  - inversion H; subst. apply bal_nil.
+  - apply bind_ok_inv in H. destruct H as ([t1 c1] & H1 & H). apply bind_ok_inv in H. destruct H as ([t2 c2] & H2 & H).
+    inversion H; subst. simpl.
+    replace (EBlock :: t1 ++ EEndBlock :: t2) with ((EBlock :: t1 ++ [EEndBlock]) ++ t2)
+      by (simpl; rewrite <- app_assoc; reflexivity).
+    apply bal_app; [apply bal_wrap_block; eapply G; eauto|eapply IH; eauto].
+Qed.
+
+Lemma xl_bal : forall fuel tbl its cnt t c, xl fuel tbl its cnt = Ok (t, c) -> bal t.
+Proof.
+  induction fuel as [|f IH]; intros tbl its cnt t c H; simpl in H; [discriminate|].
+  destruct its as [|it rest]; [inversion H; apply bal_nil|].
+  assert (X : forall r1, (match it with
+                 | Label n e => Ok ([ELabel n e (addr_of cnt)], cnt)
+                 | LocalLabel n => Ok ([ELocal n (addr_of cnt)], cnt)
+                 | Assign n e v => Ok ([EAssign n e v], cnt)
+                 | Ref n => Ok ([ERef n], cnt + 1)
+                 | Block k body => iter_block (xl f tbl body) k cnt
+                 | Include i =>
+                     match nth_error tbl i with
+                     | None => Err ["io-error"%string]
+                     | Some fl => do r <- xl f tbl fl cnt; Ok (EFile :: fst r ++ [EEndFile], snd r)
+                     end
+                 | ExternDecl ns => Ok ([EExtern ns], cnt)
+                 | ExternAll => Ok ([EExternAll], cnt)
+                 | End => Ok ([], cnt)
+                 end) = Ok r1 -> bal (fst r1)).
+  { intros [t1 c1] H1. simpl. destruct it; try (inversion H1; subst; apply bal_single; exact I).
+    - eapply iter_block_bal; [|exact H1]. intros; eapply IH; eauto.
+    - destruct (nth_error tbl f0); [|discriminate]. apply bind_ok_inv in H1. destruct H1 as ([t2 c2] & H2 & H1).
+      inversion H1; subst. simpl. apply bal_wrap_file. eapply IH; eauto.
+    - inversion H1; subst. apply bal_nil. }
+  destruct it; try (apply bind_ok_inv in H; destruct H as (r1 & H1 & H); apply bind_ok_inv in H; destruct H as ([t2 c2] & H2 & H);
+                    inversion H; subst; apply bal_app; [apply X; exact H1|eapply IH; eauto]).
+  inversion H. apply bal_nil.
+Qed.
+
+Lemma xfiles_nested fuel tbl : forall fs cnt tr d, xfiles fuel tbl fs cnt = Ok tr -> nested_from d tr = true.
+Proof.
+  induction fs as [|fl rest IH]; intros cnt tr d H; simpl in H.
+  - inversion H. reflexivity.
+  - apply bind_ok_inv in H. destruct H as ([t c] & H1 & H). apply bind_ok_inv in H. destruct H as (t2 & H2 & H).
+    inversion H; subst. simpl fst.
+    change (EFile :: t ++ EEndFile :: t2) with ([EFile] ++ t ++ EEndFile :: t2). simpl.
+    rewrite (xl_bal _ _ _ _ _ _ H1) by lia. simpl. eapply IH; eauto.
+Qed.
+
+Lemma expand_nested fuel p tr : expand fuel p = Ok tr -> nested tr = true.
+Proof. unfold expand, nested. apply xfiles_nested. Qed.
+
+Definition WF (its : list item) : Prop := exists k, wf_items k its = true.
+
+Lemma WF_cons it rest : WF (it :: rest) ->
+  WF rest /\ match it with
+             | Label n _ | Assign n _ _ => is_local n = false
+             | LocalLabel n => is_local n = true
+             | Block _ body => WF body
+             | _ => True end.
+Proof.
+  intros [k H]. destruct k as [|k]; simpl in H; [discriminate|].
+  apply andb_true_iff in H. destruct H as [H1 H2]. split.
+  - exists (S k). simpl. exact H2.
+  - destruct it; auto; try (apply negb_true_iff; exact H1). exists k. exact H1.
+Qed.
+
+Lemma iter_block_wf g k : (forall cnt t c, g cnt = Ok (t, c) -> Forall wf_ev t) ->
+  forall cnt t c, iter_block g k cnt = Ok (t, c) -> Forall wf_ev t.
+Proof.
+  intros G. induction k as [|k IH]; intros cnt t c H; simpl in H.
+  - inversion H; subst. constructor.
+  - apply bind_ok_inv in H. destruct H as ([t1 c1] & H1 & H). apply bind_ok_inv in H. destruct H as ([t2 c2] & H2 & H).
+    inversion H; subst. simpl. constructor; [exact I|]. apply Forall_app. split; [eapply G; eauto|].
+    constructor; [exact I|]. eapply IH; eauto.
+Qed.
+
+Lemma xl_wf tbl : (forall fl, In fl tbl -> WF fl) ->
+  forall fuel its cnt t c, WF its -> xl fuel tbl its cnt = Ok (t, c) -> Forall wf_ev t.
+Proof.
+  intros TB. induction fuel as [|f IH]; intros its cnt t c W H; simpl in H; [discriminate|].
+  destruct its as [|it rest]; [inversion H; constructor|].
+  destruct (WF_cons _ _ W) as [Wr Wi].
+  destruct it;
+    try (apply bind_ok_inv in H; destruct H as ([t1 c1] & H1 & H); apply bind_ok_inv in H; destruct H as ([t2 c2] & H2 & H);
+         inversion H; subst; simpl; apply Forall_app; split; [|eapply IH; [exact Wr|exact H2]]);
+    try (inversion H1; subst; constructor; [first [exact Wi|exact I]|constructor]).
+  - eapply iter_block_wf; [|exact H1]. intros cnt0 t0 c0 H0. eapply IH; [exact Wi|exact H0].
+  - unfold file in *. revert H1. match goal with |- context [nth_error tbl ?x] => destruct (nth_error tbl x) eqn:E end; intros H1; [|discriminate H1].
+    apply bind_ok_inv in H1. destruct H1 as ([t3 c3] & H3 & H1).
+    inversion H1; subst. simpl. constructor; [exact I|]. apply Forall_app. split; [|constructor; [exact I|constructor]].
+    eapply IH; [|exact H3]. apply TB. eapply nth_error_In; eauto.
+  - inversion H. constructor.
+Qed.
+
+Lemma xfiles_wf fuel tbl : (forall fl, In fl tbl -> WF fl) ->
+  forall fs cnt tr, (forall fl, In fl fs -> WF fl) -> xfiles fuel tbl fs cnt = Ok tr -> Forall wf_ev tr.
+Proof.
+  intros TB. induction fs as [|fl rest IH]; intros cnt tr W H; simpl in H.
+  - inversion H. constructor.
+  - apply bind_ok_inv in H. destruct H as ([t c] & H1 & H). apply bind_ok_inv in H. destruct H as (t2 & H2 & H).
+    inversion H; subst. simpl. constructor; [exact I|]. apply Forall_app. split.
+    + eapply (xl_wf tbl TB); [|exact H1]. apply W. left. reflexivity.
+    + constructor; [exact I|]. eapply IH; [|exact H2]. intros fl' I'. apply W. right. exact I'.
+Qed.
+
+Definition wf_program (p : program) : Prop :=
+  (forall fl, In fl (linked p) -> WF fl) /\ (forall fl, In fl (inctable p) -> WF fl).
+
+(* for every abstract program whose names are well-kinded: the mechanism gives exactly what the Spec designates --
+   the same words when both succeed, the same set of error identifiers otherwise *)
+Lemma scope_refines_program fuel p tr :
+  wf_program p -> expand fuel p = Ok tr -> fst (model_trace tr) = spec_trace tr.
+Proof.
+  intros [W1 W2] E. apply scope_refines_lemma.
+  - unfold expand in E. eapply (xfiles_wf fuel (inctable p) W2 (linked p)); [exact W1|exact E].
+  - eapply expand_nested; eauto.
+Qed.
+
+Lemma scope_refines_run fuel p :
+  wf_program p ->
+  match model_run fuel p, spec_run fuel p with
+  | Ok (o, _), Ok o' => o = o'
+  | Err a, Err b => a = b
+  | Crash a, Crash b => a = b
+  | OutOfFuel, OutOfFuel => True
+  | _, _ => False
+  end.
+Proof.
+  intros W. unfold model_run, spec_run. destruct (expand fuel p) as [tr| | |] eqn:E; cbn [bind]; auto.
+  pose proof (scope_refines_program fuel p tr W E) as Q. destruct (model_trace tr) as [o t]. exact Q.
+Qed.
+
+(* a use that stays unbound is an error of the build *)
+Lemma undefined_is_error tr l i n :
+  In (inr (l, i, n)) (outs (walk tr)) -> resolve_final (walk tr) l i n = None ->
+  exists es, fst (model_trace tr) = OutFail es /\ In E_UNDEFINED es.
+Proof.
+  intros I R. unfold model_trace. simpl fst.
+  set (s := walk tr) in *.
+  set (vals := map (force s) (outs s)).
+  assert (X : existsb (fun v : option Z => match v with None => true | Some _ => false end) vals = true).
+  { apply existsb_exists. exists None. split; auto. unfold vals. apply in_map_iff. exists (inr (l, i, n)). split; auto. }
+  rewrite X.
+  set (es := errs s ++ [E_UNDEFINED]).
+  assert (H : has E_UNDEFINED es = true).
+  { unfold has. apply existsb_exists. exists E_UNDEFINED. split; [apply in_or_app; right; left; reflexivity|apply String.eqb_refl]. }
+  rewrite H. destruct (has E_UNEXPECTED es), (has E_DUP es); eexists; (split; [reflexivity|]); simpl; auto.
+Qed.
+
+(* ------------------------------------------------------------------ fresh counters: nothing is bound under the
+   next internal / local prefix, and the extern mapping points to instances that exist *)
+Lemma fresh_counters tr : nested tr = true ->
+  let s := walk tr in
+  (forall ln, lookup_key (KInternal, next_int s, ln) (syms s) = None) /\
+  (forall ln, lookup_key (KLocal, next_loc s, ln) (syms s) = None) /\
+  (forall ln key, lookup_ext ln (exts s) = Some key -> exists i, key = (KInternal, i, ln) /\ (1 <= i < next_int s)%N) /\
+  (forall k i ln v, lookup_key (k, i, ln) (syms s) = Some v ->
+     match k with KInternal => (1 <= i < next_int s)%N | KLocal => (1 <= i < next_loc s)%N end).
+Proof.
+  intros N s.
+  destruct (inv_run tr init [] [] 0%nat _ _ inv_init N) as (fi & fl & (g1 & (G21 & _ & G23 & _) & ((X1 & _) & _) & _)).
+  fold (walk tr) in *. fold s in G21, G23, X1.
+  refine (conj _ (conj _ (conj _ _))).
+  - intros ln. destruct (lookup_key (KInternal, next_int s, ln) (syms s)) eqn:E; auto.
+    destruct (G21 _ _ _ E) as [R _]. unfold rI in R. lia.
+  - intros ln. destruct (lookup_key (KLocal, next_loc s, ln) (syms s)) eqn:E; auto.
+    destruct (G23 _ _ _ E) as [R _]. unfold rL in R. lia.
+  - intros ln key E. destruct (X1 _ _ E) as (k & -> & R & _). exists k. split; auto.
+  - intros k i ln v E. destruct k.
+    + destruct (G23 _ _ _ E) as [R _]. exact R.
+    + destruct (G21 _ _ _ E) as [R _]. exact R.
+Qed.
+
+(* ------------------------------------------------------------------ export order for labels *)
+Lemma bump_declare i s n : bump_local (declare i s n) = declare i (bump_local s) n.
+Proof.
+  unfold bump_local. rewrite (proj1 (stack_declare i s n)). destruct (stack s); auto.
+  unfold declare. simpl. destruct (lookup_ext (lower n) (exts s)); reflexivity.
+Qed.
+
+Lemma bump_fold_declare i ns : forall s, bump_local (fold_left (declare i) ns s) = fold_left (declare i) ns (bump_local s).
+Proof. induction ns; simpl; intros s; auto. rewrite IHns, bump_declare. reflexivity. Qed.
+
+Lemma topf_bump_int s : f_int (topf (bump_local s)) = f_int (topf s) /\ f_isfile (topf (bump_local s)) = f_isfile (topf s)
+                        /\ f_xall (topf (bump_local s)) = f_xall (topf s) /\ isl (bump_local s) = isl s.
+Proof. unfold bump_local, topf. destruct (stack s) eqn:E; simpl; rewrite ?E; repeat split; reflexivity. Qed.
+
+Lemma bump_extern s ns : step (bump_local s) (EExtern ns) = bump_local (step s (EExtern ns)).
+Proof. unfold step. rewrite (proj1 (topf_bump_int s)), bump_fold_declare. reflexivity. Qed.
+
+Lemma bump_set_xall s : bump_local (set_xall s) = set_xall (bump_local s).
+Proof. unfold bump_local, set_xall. destruct (stack s) eqn:E; simpl; rewrite ?E; simpl; reflexivity. Qed.
+
+Lemma bump_externall s : step (bump_local s) EExternAll = bump_local (step s EExternAll).
+Proof.
+  unfold step. destruct (topf_bump_int s) as (A & _ & _ & B). rewrite A, B, bump_set_xall, bump_fold_declare. reflexivity.
+Qed.
+
+Lemma topf_fold_declare_file i ns s : topf (fold_left (declare i) ns s) = topf s.
+Proof. unfold topf. rewrite (proj1 (stack_fold_declare i ns s)). reflexivity. Qed.
+
+(* 'name:' then '.extern name'  ==  '.extern name' then 'name:' ; the same for '.extern all' *)
+Lemma extern_label_commute s n m v :
+  f_isfile (topf s) = true -> f_xall (topf s) = false -> lower m = lower n ->
+  lookup_key (mkkey KInternal (f_int (topf s)) n) (syms s) = None ->
+  step (step s (ELabel n false v)) (EExtern [m]) = step (step s (EExtern [m])) (ELabel n false v).
+Proof.
+  intros F X L U.
+  rewrite (label_is_assign_bump s n false v F), bump_extern, (extern_assign_commute s n m v F X L U).
+  symmetry. apply label_is_assign_bump. simpl. rewrite topf_declare. exact F.
+Qed.
+
+Lemma externall_label_commute s n v :
+  f_isfile (topf s) = true -> f_xall (topf s) = false ->
+  lookup_key (mkkey KInternal (f_int (topf s)) n) (syms s) = None ->
+  step (step s (ELabel n false v)) EExternAll = step (step s EExternAll) (ELabel n false v).
+Proof.
+  intros F X U.
+  rewrite (label_is_assign_bump s n false v F), bump_externall, (externall_assign_commute s n v F X U).
+  symmetry. apply label_is_assign_bump.
+  unfold step, set_xall. rewrite (proj1 (stack_fold_declare _ _ _)).
+  unfold topf in *. destruct (stack s); [discriminate|]. simpl. exact F.
 Qed.
